@@ -41,6 +41,8 @@ def work(tier, seed):
         seen.add(bl)
         for g in b["grids"]:
             items.append({"blocks": [list(x) for x in bl], "grid": g, "tie_free": True})
+    for n in (ot.LADDER_QUICK[:5] if tier == "quick" else ot.LADDER_THOROUGH[:-2]):
+        items.append({"ladder": n})
     P, Q = b["all_types_max"]
     for bl in ot.order_types(P, Q, 1, 1):
         if bl in seen:
@@ -60,6 +62,31 @@ def run(item, ctx, tier, seed):
     from score_analysis import Scores
 
     b = bounds(tier)
+    if "ladder" in item:
+        n = item["ladder"]
+        pos, neg = ot.ladder_dataset(n, True, seed)
+        for cfg in ot.CFGS:
+            for ep, en in ((0, 0), (3, 5), (0, n)):
+                case = {"ladder_n": n, "cfg": cfg, "easy": [ep, en], "n_pos": len(pos), "n_neg": len(neg)}
+                ctx.state()
+                ok, s = guarded(ctx, "construct", case, Scores, pos, neg, nb_easy_pos=ep, nb_easy_neg=en, score_class=cfg[0],
+                                equal_class=cfg[1])
+                if not ok:
+                    continue
+                ok, res = guarded(ctx, "eer", case, s.eer)
+                ctx.tick()
+                ctx.nontrivial()
+                if not ok:
+                    continue
+                t, e = float(res[0]), float(res[1])
+                fpr, fnr = float(s.fpr(t)), float(s.fnr(t))
+                NP, NN = len(pos) + ep, len(neg) + en
+                if not (0 <= e <= 1 and abs(fpr - e) <= 1.0 / NN + 1e-9 and abs(fnr - e) <= 1.0 / NP + 1e-9
+                        and e <= min(len(pos) / NP, len(neg) / NN) + 1e-12):
+                    ctx.fail("crossing-point-on-large-dataset", case, observed={"t": t, "eer": e, "fpr": fpr, "fnr": fnr},
+                             expected="within one sample, capped by the hard fractions")
+        ctx.sample({"ladder_n": n})
+        return None
     blocks = [tuple(x) for x in item["blocks"]]
     pos, neg, vals = ot.concretise(blocks, item["grid"], seed)
     tie_free = item["tie_free"]
